@@ -385,6 +385,24 @@ def gen_message(rng, max_depth=4, style=None) -> bytes:
     return m
 
 
+def gen_clean_lf(rng, depth=1) -> bytes:
+    """well-formed LF-only messages (simple fields, 8-bit allowed, flat or one
+    level of multipart): the kind stdlib mailbox gives back unchanged, so that
+    the maildir monitor judges pymap and not stdlib"""
+    hdr = b''.join(rng.choice([b'Subject', b'From', b'To', b'X-A']) + b': ' +
+                   rng.choice([b'a', b'hello world', b'x@y.z', b'caf\xc3\xa9']) + b'\n'
+                   for _ in range(rng.randint(1, 4)))
+    if depth and rng.random() < 0.4:
+        parts = b''.join(b'--b%d\n' % depth + gen_clean_lf(rng, depth - 1)
+                         for _ in range(rng.randint(1, 3)))
+        return (hdr + b'Content-Type: multipart/mixed; boundary=b%d\n\n' % depth + parts +
+                b'--b%d--\n' % depth)
+    body = b''.join(b' '.join(rng.choice([b'a', b'hello', b'\xff\xfe', b'x y', b'--', b'From x',
+                                          b'.', b'\x00']) for _ in range(rng.randint(1, 4))) + b'\n'
+                    for _ in range(rng.randint(1, 5)))
+    return hdr + b'\n' + body
+
+
 def gen_raw(rng, maxlen: int) -> bytes:
     n = rng.choice([0, 1, 2, 3, rng.randint(0, 40), rng.randint(0, maxlen)])
     r = rng.random()
